@@ -45,7 +45,7 @@ def generate(tier, seed):
     else:
         for own, dot, l0, l1, l2 in itertools.product(range(6), range(5), range(13), range(13), range(13)):
             cells.append([own, dot, [l0, l1, l2]])
-        n_s = 20000
+        n_s = 60000
     rng = rng_for(seed, "c04-sample")
     for _ in range(n_s):
         lv = []
